@@ -19,8 +19,10 @@ Inductive lentry :=
 Record ojob := {
   oj_name : bytes; oj_start : Z; oj_end : Z; oj_spy : bytes; oj_rate : N; oj_units : bytes; oj_agg : bytes;
   oj_data : list (bytes * N);            (* Trie.Iterate of the uploaded trie, inside Upload *)
-  oj_late : list (bytes * N);            (* the same trie read again when the session is over (a slow uploader) *)
-  oj_shared : bool;                      (* the very same *Trie had been handed over with an earlier job *)
+  oj_late : list (bytes * N);            (* the job read again THROUGH ITS POINTER when the session is over (an uploader that *)
+  oj_late_name : bytes;                  (*   queues the pointer and serialises later, as remote / direct do): its trie, *)
+  oj_late_start : Z; oj_late_end : Z;    (*   name and window *)
+  oj_shared : bool;                      (* the very same *Trie or *UploadJob had been handed over with an earlier job *)
   oj_by_stop : bool                      (* uploaded by the goroutine that called Stop() *)
 }.
 
@@ -216,8 +218,9 @@ Definition check_case (c : case) : verdict :=
   combine_verdicts (
     map (check_slot c ss js) (enumerate 0 (q_ptypes c)) ++ [
     (* --- the property evaluated on what the implementation uploaded --- *)
-    spec (forallb (fun j => negb (oj_shared j) && ms_eqb (oj_data j) (oj_late j)) js)
-         "a trie handed to the uploader was written to afterwards or handed over twice (a queued job would upload other samples)";
+    spec (forallb (fun j => negb (oj_shared j) && ms_eqb (oj_data j) (oj_late j) && beqb (oj_name j) (oj_late_name j) &&
+                            (oj_start j =? oj_late_start j) && (oj_end j =? oj_late_end j)) js)
+         "a job (or its trie) handed to the uploader was rewritten afterwards or handed over twice (a queued job would upload another window)";
     spec (forallb (fun j => existsb (fun p => beqb (oj_name j) (job_name cfg p)) (q_ptypes c) &&
                             beqb (oj_spy j) (q_spy c) && N.eqb (oj_rate j) (q_rate c)) js)
          "job name or metadata differ from <app>.<type> / the session's configuration";
